@@ -117,7 +117,17 @@ def parse_run(meta, rc, stdout, stderr):
             if lab in labelled and labelled[lab] != clause:
                 site = labelled[lab]
                 break
-        rec = {'message': msg, 'kind': kind, 'line': line, 'region': region['name'] if region else None,
+        # context of the failing site inside a long generated line: the match-arm pattern right before it
+        site_ctx = None
+        for sp in (prim or []):
+            tx = sp.get('text') or []
+            if tx:
+                pre = tx[0]['text'][:max(0, tx[0]['highlight_start'] - 1)]
+                pre = re.sub(r'/\*[~+\-@][^*]*\*/', '', pre)
+                k = pre.rfind('=>')
+                if k >= 0:
+                    site_ctx = re.sub(r'\s+', ' ', pre[max(0, k - 90):k]).strip().split(',')[-1].strip()
+        rec = {'message': msg, 'kind': kind, 'line': line, 'site_ctx': site_ctx, 'region': region['name'] if region else None,
                'props': region['props'] if region else [], 'clause': clause, 'site': site,
                'rendered': d.get('rendered', '')[:4000]}
         if kind is None:
